@@ -56,12 +56,25 @@ def parseEv (j : Json) : R TEv := do
       | "arrive", [conn, tag, d] => do return Ev.arrive (← conn.getNat?) (← optNat tag) (← getBytes d)
       | "devclose", [conn] => do return Ev.devclose (← conn.getNat?)
       | "dopoll", [m] => do return Ev.dopoll (← m.getNat?)
+      | "more", [c, n] => do return Ev.more (← c.getNat?) (← n.getNat?)
+      | "isend", [c, conn, n, d] => do return Ev.isend (← c.getNat?) (← conn.getNat?) (← n.getNat?) (← getBytes d)
+      | "busy", [c] => do return Ev.busy (← c.getNat?)
+      | "idend", [c, ok] => do return Ev.idend (← c.getNat?) (← ok.getBool?)
       | _, _ => throw s!"bad event {j.compress}")
     return ⟨t, ev⟩
   | _ => throw s!"bad event {j.compress}"
 
+def parseIdReq (j : Json) : R IdReq := do
+  match ← arr j with
+  | [cmd, rl, pat] => return ⟨← getBytes cmd, ← rl.getNat?, ← getBytes pat⟩
+  | _ => throw "bad ident entry"
+
 def parseCfg (j : Json) : R Cfg := do
-  return { bytesMode := ← fldBool j "bytes", eol := bytesOf (← fldStr j "eol"), timeout := ← fldNat j "timeout",
+  let ident ← match (j.getObjVal? "ident").toOption with
+    | some a => (← arr a).mapM parseIdReq
+    | none => pure []
+  let retry := ((j.getObjValAs? Bool "retry_first").toOption).getD true
+  return { ident := ident, retryFirst := retry, bytesMode := ← fldBool j "bytes", eol := bytesOf (← fldStr j "eol"), timeout := ← fldNat j "timeout",
            waitBefore := ← fldNat j "wait_before", interval := ← fldNat j "interval", gran := ← fldNat j "gran",
            slack := ← fldNat j "slack" }
 
@@ -101,11 +114,13 @@ def handle (j : Json) : R Json := do
     let within := ((j.getObjValAs? Nat "within").toOption).getD 0
     let clauses : List (String × Bool) := [
       ("multicomm_atomic", multicommAtomicB evs),
+      ("exchange_atomic", exchangeAtomicB evs),
       ("delays_honoured", delaysHonouredB evs),
       ("stale_discarded", staleDiscardedB cfg.bytesMode cfg.eol evs),
       ("reply_pairing", replyPairingB cfg.bytesMode cfg.eol evs),
       ("fails_within_timeout", failsWithinTimeoutB cfg evs),
       ("state_visible", stateVisibleB evs),
+      ("closed_visible", closedVisibleB evs),
       ("state_not_overwritten", stateNotOverwrittenB evs),
       ("reconnect_rate_limited", rateLimitedB cfg evs),
       ("attempts_atomic", attemptsAtomicB evs),
